@@ -429,10 +429,53 @@ mod inner {
 
         pub(crate) fn remove(&mut self, index: usize) {
             if self.scope.contains(&index) && self.item_state[index].present() {
+                #[cfg(bpaf_verif)]
+                let before = crate::verif::obj(self);
                 self.current = Some(index);
                 self.remaining -= 1;
                 self.item_state[index] = ItemState::Parsed;
+                #[cfg(bpaf_verif)]
+                crate::verif::evx("remove", self, &format!("\"ix\":{},\"before\":{}", index, before));
             }
+        }
+
+        #[cfg(bpaf_verif)]
+        /// projection of the consumption ledger for verification hooks
+        pub(crate) fn verif_snap(&self) -> String {
+            let led = self
+                .item_state
+                .iter()
+                .map(|s| match s {
+                    ItemState::Unparsed => "\"U\"",
+                    ItemState::Conflict(_) => "\"C\"",
+                    ItemState::Parsed => "\"P\"",
+                })
+                .collect::<Vec<_>>()
+                .join(",");
+            format!(
+                "\"led\":[{}],\"lo\":{},\"hi\":{},\"rem\":{},\"depth\":{}",
+                led,
+                self.scope.start,
+                self.scope.end,
+                self.remaining,
+                self.path.len()
+            )
+        }
+
+        #[cfg(bpaf_verif)]
+        /// kinds of the tokenised items for verification hooks
+        pub(crate) fn verif_kinds(&self) -> String {
+            self.items
+                .iter()
+                .map(|a| match a {
+                    Arg::Short(_, adj, _) => if *adj { "\"shortv\"" } else { "\"short\"" },
+                    Arg::Long(_, adj, _) => if *adj { "\"longv\"" } else { "\"long\"" },
+                    Arg::ArgWord(_) => "\"argword\"",
+                    Arg::Word(_) => "\"word\"",
+                    Arg::PosWord(_) => "\"posword\"",
+                })
+                .collect::<Vec<_>>()
+                .join(",")
         }
 
         pub(crate) fn pick_winner(&self, other: &Self) -> (bool, Option<usize>) {
@@ -563,6 +606,8 @@ mod inner {
                 .copied()
                 .filter(ItemState::present)
                 .count();
+            #[cfg(bpaf_verif)]
+            crate::verif::ev("set_scope", self);
         }
 
         #[cfg(feature = "autocomplete")]
